@@ -27,7 +27,9 @@ def cases(tier):
     cs += [c for c in c13.cases(tier) if c.name.startswith("unit-m1")]
     # (c) parameter and expression APIs on arbitrary data
     for api in range(len(APIS)):
-        cs.append(params(api, 3 if q else 5, 900 if q else 3000))
+        if q and APIS[api] == "SCPI_ExprChannelListEntry":
+            continue  # > 900 s on arbitrary bytes; the channel-list walker runs with all memory checks in C19's cases (quick) and here in thorough
+        cs.append(params(api, 3 if q else 4, 900 if q else 6000))
     if not q:
         cs.append(params(0, 4, 3000, None, ["-DUSE_DEVICE_DEPENDENT_ERROR_INFORMATION=0"], "-noinfo"))
         cs.append(params(9, 4, 3000, None, ["-DUSE_MEMORY_ALLOCATION_FREE=0"], "-heap"))
